@@ -74,6 +74,18 @@ def main():
             except Exception as exc:
                 res["junit_error"] = str(exc)
             res["regressions"] = sorted(w for w in want if not got.get(w))
+            # tests that fail under the parallel run are re-run alone (some solver tests are timing sensitive under load)
+            still = []
+            for w in res["regressions"]:
+                cls, name = w.split("::")
+                parts = cls.split(".")
+                node = "/".join(parts[:-1]) + ".py::" + parts[-1] + "::" + name
+                rc2, out2 = sh(f"/venv/bin/python -m pytest -q -p no:cacheprovider --timeout=900 '{node}'", cwd=wt, env=env, timeout=1800)
+                if rc2 != 0:
+                    still.append(w)
+            if still != res["regressions"]:
+                res["flaky_rerun_alone_passed"] = sorted(set(res["regressions"]) - set(still))
+            res["regressions"] = still
         ok = res["demo_clean_rc"] == 0 and res["demo_patched_rc"] != 0 and (not run_tests or not res.get("regressions"))
         res["confirmed"] = ok
         print(json.dumps(res, indent=1))
